@@ -714,8 +714,14 @@ interesting T-states, the bus-cycle trace taken from the real Z80 on a recording
         for code in &instrs {
             for k in 0..per {
                 let mut r = rng.fork();
-                let regs = random_regs(&mut r);
-                let t = if k % 2 == 0 { *r.pick(&ts) } else { r.below(frame_len(m128) as u64) as usize };
+                let mut regs = random_regs(&mut r);
+                let mut t = if k % 2 == 0 { *r.pick(&ts) } else { r.below(frame_len(m128) as u64) as usize };
+                if k < 2 {
+                    // every instruction at least twice with the I register pointing into contended memory while the ULA
+                    // is fetching (the refresh address IR is carried by some internal T-states)
+                    regs.i = [0x40u8, 0x7F][k];
+                    t = (if m128 { 14361 } else { 14335 }) + (if m128 { 228 } else { 224 }) * (40 + 7 * k) + 2 + k;
+                }
                 let latch = if m128 { r.below(8) as u8 | (r.below(2) as u8) << 4 } else { 0 };
                 cases.push(Case { szx: false, m128, ext: k % 4 == 3, latch, t, act: Action::Instr(code.clone(), regs) });
             }
